@@ -453,9 +453,20 @@ func c14Scenarios(thorough bool) []scenario {
 // C14 explores every interleaving of every producer/consumer program pair.
 func C14(c *core.Ctx) {
 	scs := c14Scenarios(c.Thorough())
-	c.Rep.Bound = "all interleavings (no preemption bound), happens-before state caching; plus single-thread streams over rings requested with 9 sizes (powers of two and not), and every sequence to depth 6 (quick) / 7 (thorough) of produce-obtain-commit steps with chunk sizes that return to the same ring index after a revolution"
+	c.Rep.Bound = "all interleavings (no preemption bound), happens-before state caching; the outgoing path of a connection (writeRequest against the sender goroutine): five size patterns over 4/12 laps with a prompt and a lagging peer, and the sender stuck with a small chunk while the ring fills; plus single-thread streams over rings requested with 9 sizes (powers of two and not), and every sequence to depth 6 (quick) / 7 (thorough) of produce-obtain-commit steps with chunk sizes that return to the same ring index after a revolution"
 	c.Rep.Rule = fmt.Sprintf("scenarios = start offset x prefill x producer program x consumer program over the real ring of %d bytes (%d scenarios in this tier); per scenario every interleaving of producer and consumer at lock/cond/atomic granularity; an execution is non-trivial when the consumer obtained at least one byte the producer committed concurrently; distinct = distinct happens-before states", size, len(scs))
+	if c.Replay != nil && (strings.HasPrefix(c.Replay.Scenario, "stream ") || strings.HasPrefix(c.Replay.Scenario, "small-chunk")) {
+		core.RunExtras("C14", c)
+		return
+	}
 	c14sizes(c)
+	if c.HasViolation() || c.Expired() {
+		return
+	}
+	// the ring as the connection uses it: writeRequest (reserve, encode in place or through
+	// the wrap buffer, commit) against the sender goroutine, whole streams over several laps
+	// with a prompt and a lagging peer (harness/broker, shared with C17)
+	core.RunExtras("C14", c)
 	if c.HasViolation() || c.Expired() {
 		return
 	}
